@@ -227,7 +227,7 @@ def judge_senders(res, obs, S, nthreads, nframes, tag, with_recv=False):
     return issues, case, order, mid_frame_switch
 
 
-def receiver_scenario(W, nthreads, stream_builder, line_points, seg_rng):
+def receiver_scenario(W, nthreads, stream_builder, line_points, seg_rng, api="recv"):
     def scen():
         S = sched.CURRENT
         stream, msgs, pings = stream_builder()
@@ -243,7 +243,14 @@ def receiver_scenario(W, nthreads, stream_builder, line_points, seg_rng):
             lst = got.setdefault(t, [])
             while True:
                 try:
-                    lst.append(w.recv())
+                    if api == "recv":
+                        lst.append(w.recv())
+                    else:
+                        fr = w.recv_frame()
+                        if fr.opcode == R.TEXT:
+                            lst.append(fr.data.decode("utf-8"))
+                        elif fr.opcode == R.BINARY:
+                            lst.append(bytes(fr.data))
                 except W.WebSocketConnectionClosedException:
                     return
                 except BaseException as e:  # noqa
@@ -278,6 +285,18 @@ def build_recv_stream(rng):
                 pings.append(p)
         msgs.append(body.decode() if text else body)
     return b"".join(parts), msgs, pings
+
+
+def build_frame_stream(rng):
+    """unfragmented messages only (one frame == one message), for receivers that call recv_frame() themselves"""
+    msgs, parts = [], []
+    for i in range(rng.randrange(4, 9)):
+        text = rng.random() < 0.5
+        n = rng.choice([0, 1, 5, 40, 126, 300])
+        body = (("f%d-" % i) + "x" * n).encode() if text else b"FB%d-" % i + bytes(rng.randrange(256) for _ in range(n))
+        parts.append(R.encode(R.TEXT if text else R.BINARY, body, key=rng.randbytes(4) if rng.random() < 0.3 else None))
+        msgs.append(body.decode() if text else body)
+    return b"".join(parts), msgs, []
 
 
 def judge_receivers(res, obs, S, tag):
@@ -404,6 +423,10 @@ def run(res, tier, seed, shard, nshards):
         jobs.append(("R", nt, "random", 250 if quick else 5000))
         jobs.append(("R", nt, "random-line", 100 if quick else 2500))
     jobs.append(("R", 2, "sweep-line", 300 if quick else 100000))
+    # recv_frame() callers: the frame buffer's own lock has to keep each frame whole
+    jobs.append(("RF", 2, "random", 250 if quick else 5000))
+    jobs.append(("RF", 3, "random-line", 100 if quick else 2500))
+    jobs.append(("RF", 2, "dfs", 600 if quick else 20000))
     for ji, job in enumerate(jobs):
         if ji % nshards != shard:
             continue
@@ -416,6 +439,15 @@ def run(res, tier, seed, shard, nshards):
             tag = ("senders", nt, nf, piece, mode, with_recv)
             explore(res, lambda: sender_scenario(W, nt, nf, piece, line, with_recv),
                     lambda obs, S: _js(res, obs, S, nt, nf, tag, with_recv), tag, m, budget, seed * 1000 + ji, "sender_schedules")
+        elif job[0] == "RF":
+            _, nt, mode, budget = job
+            line = mode.endswith("-line")
+            m = mode.replace("-line", "")
+            tag = ("frame-receivers", nt, mode)
+            srng = random.Random(seed * 7919 + ji)
+            fixed = build_frame_stream(random.Random(seed * 31 + ji))
+            explore(res, lambda: receiver_scenario(W, nt, (lambda: fixed) if m != "random" else (lambda: build_frame_stream(srng)), line, random.Random(ji), api="recv_frame"),
+                    lambda obs, S: _jr(res, obs, S, tag), tag, m, budget, seed * 1000 + ji, "receiver_schedules")
         else:
             _, nt, mode, budget = job
             line = mode.endswith("-line")
